@@ -65,7 +65,160 @@ def u1(ctx, entry_table, min_functions=1, extra_note=""):
                 r.note("U1", where, u.name,
                        f"unbound name '{u.name}' in {f.qualname} is "
                        f"{u.klass} ({u.why}); out of the property's scope")
+    # attribute / arity resolution (same family: the statement cannot run)
+    r.rule("U1m", "an attribute read on a project module must be bound in "
+                  "that module (else AttributeError)")
+    r.rule("U1a", "an attribute read on self must be defined somewhere in "
+                  "the class hierarchy (method, class attribute or "
+                  "self.x = assignment)")
+    r.rule("A1", "a call whose callee resolves to exactly one project "
+                 "function passes no more positionals / unknown keywords "
+                 "than the signature accepts and supplies the required "
+                 "parameters; a violation only when the caller is reachable "
+                 "from the entry points without name-based CHA edges")
+    precise = ctx.cg.reachable(ents, precise=True)
+    for f in sorted(reach, key=lambda x: x.fq):
+        if f.parent is not None:
+            continue
+        seen = set()
+        for rule, node, name, msg in resolution_sites(ctx, f):
+            if (rule, name) in seen:
+                continue
+            seen.add((rule, name))
+            where = loc(f, node)
+            stmt = _enclosing_stmt(f, node)
+            klass, why = ctx.ba.classify(f, node)
+            live = klass == "live" and (rule != "A1" or f in precise)
+            if live:
+                r.violation(rule, f"{f.fq}|{name}", where,
+                            norm_stmt(stmt)[:160], msg,
+                            instance=f"{f.fq}:{name}",
+                            path=ctx.cg.path_to(
+                                precise if f in precise else reach, f))
+            else:
+                r.note(rule, where, name,
+                       msg + (f" [{klass}: {why}]" if klass != "live" else
+                              " [caller only reachable through name-based "
+                              "dispatch; latent]"))
     return reach
+
+
+def _class_family(p, c):
+    fam = list(p.mro(c)) + p.subclasses(c)
+    for s in list(fam):
+        for x in p.mro(s):
+            if x not in fam:
+                fam.append(x)
+    return fam
+
+
+def _known_attrs(p, c):
+    cache = p.__dict__.setdefault("_known_attr_cache", {})
+    key = c.fq
+    if key in cache:
+        return cache[key]
+    from ..project import External
+    names = set()
+    ext = False
+    for k in _class_family(p, c):
+        names |= set(k.methods) | set(k.attrs)
+        for b in k.bases:
+            if isinstance(b, External) and b.dotted not in (
+                    "builtins.object",):
+                ext = True
+            if b is None:
+                ext = True
+        for m in k.methods.values():
+            for n in ast.walk(m.node):
+                if isinstance(n, ast.Attribute) \
+                        and isinstance(n.ctx, (ast.Store, ast.Del)) \
+                        and isinstance(n.value, ast.Name) \
+                        and n.value.id == "self":
+                    names.add(n.attr)
+    cache[key] = (names, ext)
+    return cache[key]
+
+
+def resolution_sites(ctx, f):
+    """U1m / U1a / A1 candidates in function f.
+    -> list of (rule, node, name, message)"""
+    from ..project import ClassInfo, External, FunctionInfo, Module
+    p = ctx.p
+    out = []
+    locs = ctx.cg._locals(f)
+    for n in ast.walk(f.node):
+        if isinstance(n, ast.Attribute) and isinstance(n.ctx, ast.Load):
+            v = n.value
+            if isinstance(v, ast.Name) and v.id == "self" \
+                    and f.cls is not None and not f.is_static \
+                    and "self" in f.params[:1]:
+                names, ext = _known_attrs(p, f.cls)
+                if n.attr not in names and not n.attr.startswith("__") \
+                        and not ext:
+                    out.append(("U1a", n, f"self.{n.attr}",
+                                f"attribute `{n.attr}` is read on self in "
+                                f"{f.qualname} but no class in the hierarchy "
+                                f"of {f.cls.name} defines a method, class "
+                                "attribute or `self." + n.attr + " = ...` "
+                                "assignment of that name -> AttributeError"))
+                continue
+            if isinstance(v, ast.Name) and v.id in locs:
+                continue
+            base = p.resolve_expr(f.module, v)
+            if isinstance(base, Module):
+                if p.lookup(base, n.attr) is None \
+                        and not p.module_binds(base, n.attr):
+                    out.append(("U1m", n, ast.unparse(n),
+                                f"`{ast.unparse(n)}`: module {base.name} "
+                                f"binds no name `{n.attr}` -> AttributeError "
+                                "when this expression is evaluated"))
+    for cs in ctx.cg.sites.get(f, []):
+        if len(cs.targets) != 1 or cs.kind not in ("func", "ctor", "method"):
+            continue
+        call = cs.node
+        if any(isinstance(a, ast.Starred) for a in call.args):
+            continue
+        t = cs.targets[0]
+        g = t
+        bound = False
+        if isinstance(t, ClassInfo):
+            g = p.find_method(t, "__init__")
+            bound = True
+            if g is None:
+                continue
+        elif g.cls is not None and not g.is_static:
+            base = p.resolve_expr(f.module, call.func.value) \
+                if isinstance(call.func, ast.Attribute) else None
+            bound = not isinstance(base, ClassInfo)
+        params = g.params[1:] if bound else g.params
+        if any(d in ("property",) for d in g.decorators):
+            continue
+        if g.decorators and not (g.is_static or g.is_classmethod):
+            wrapped = [d for d in g.decorators
+                       if d not in ("staticmethod", "classmethod")]
+            if wrapped:
+                continue        # wrapper may change the signature
+        npos = len(call.args)
+        if npos > len(params) and not g.has_varargs:
+            out.append(("A1", call, ast.unparse(call.func),
+                        f"{npos} positional arguments are passed to "
+                        f"{g.qualname}{tuple(params)}, which accepts "
+                        f"{len(params)} -> TypeError at this call"))
+            continue
+        for k in call.keywords:
+            if k.arg and k.arg not in params + g.kwonly and not g.has_kwargs:
+                out.append(("A1", call, ast.unparse(call.func),
+                            f"keyword `{k.arg}` is not a parameter of "
+                            f"{g.qualname}{tuple(params)} -> TypeError"))
+        if not any(k.arg is None for k in call.keywords):
+            nreq = len(params) - len([q for q in params if q in g.defaults()])
+            given = set(params[:npos]) | {k.arg for k in call.keywords}
+            miss = [q for q in params[:nreq] if q not in given]
+            if miss:
+                out.append(("A1", call, ast.unparse(call.func),
+                            f"required parameter(s) {miss} of {g.qualname} "
+                            "are not supplied -> TypeError"))
+    return out
 
 
 def _enclosing_stmt(f, node):
